@@ -107,6 +107,28 @@ func loadCtx(repo, contracts string) (*Ctx, error) {
 		return nil, err
 	}
 	c.cf = cf
+	for _, ca := range cf.ClauseAll {
+		re, err := regexp.Compile("^(" + ca.Re + ")$")
+		if err != nil {
+			return nil, fmt.Errorf("clauseall line %d: %v", ca.Line, err)
+		}
+		var names []string
+		for name, fn := range c.funcs {
+			if re.MatchString(name) && fn.Blocks != nil {
+				names = append(names, name)
+			}
+		}
+		sort.Strings(names)
+		var lines []string
+		var nos []int
+		for _, name := range names {
+			lines = append(lines, "func "+name, ca.Clause)
+			nos = append(nos, ca.Line, ca.Line)
+		}
+		if err := processContractLines(cf, lines, nos); err != nil {
+			return nil, err
+		}
+	}
 	// "ensuresall": one postcondition for every function whose name matches
 	for _, ea := range cf.EnsuresAll {
 		re, err := regexp.Compile("^(" + ea.Re + ")$")
